@@ -765,8 +765,8 @@ def run(ctx):
     rng = ctx.rng
     lines, expect = [], []
     corpus = load_corpus()
-    ncases = ctx.n(300, 4000)
-    nedge = ctx.n(30, 200)
+    ncases = ctx.n(300, 8000)
+    nedge = ctx.n(30, 400)
     for i in range(len(corpus) + ncases + nedge):
         if i < len(corpus):
             case = corpus[i]
@@ -776,7 +776,8 @@ def run(ctx):
         sc = build(case)
         ok = k_case(ctx, rng, case, sc, lines, expect)
         if ok:
-            for sg_, why in s_case(ctx, rng, case, sc):
+            deep = i < len(corpus) or (ctx.tier == 'thorough' and i % 10 == 0)
+            for sg_, why in s_case(ctx, rng, case, sc, deep=deep):
                 report(ctx, rng, case, sg_, why)
         ctx.count('case:' + case['kind']); ctx.count('div:' + case['divmode']); ctx.count('step:' + case['stepmode'])
         ctx.count('clamp:%s' % case['clamp']); ctx.count('species:%d' % len(case['species']))
